@@ -472,6 +472,7 @@ type Contract struct {
 	External bool
 	Trusted  bool // contract is assumed, body not verified
 	Params   []string
+	PTypes   []string // parameter types as written in the contract ("" if not given)
 	Results  []string
 	Clauses  []*Clause
 	Modifies []string // heap names or "*" patterns; nil means pure (nothing pre-existing modified)
@@ -724,10 +725,12 @@ func (ss *SpecSet) parseSpecText(file, pkgPath, text string) {
 					continue
 				}
 				c.Params = append(c.Params, rp[0].Name)
+				c.PTypes = append(c.PTypes, "")
 				key = "(" + rp[0].Type + ")." + name
 			}
 			for _, p := range parseParamList(params) {
 				c.Params = append(c.Params, p.Name)
+				c.PTypes = append(c.PTypes, p.Type)
 			}
 			for _, p := range parseParamList(results) {
 				c.Results = append(c.Results, p.Name)
